@@ -615,7 +615,11 @@ def check_c10(ctx):
     # error discipline as whole-spec expansion, whatever the form in which the root is supplied
     fb = [Batch(G_N2_ALL_ANY if ctx.tier != 'thorough' else G_N3_ALL_ANY, ['sibling'], ['000'], [sd['rot']], reps=1,
                 entry=ELEMENT_ENTRIES_CWD + ',ExpandSchemaWithBasePath', allfaults=True)]
-    rep3 = run_batches(ctx, fb, ['c08err', 'c08noerr', 'c04', 'c10root'], [], nontrivial=lambda o, v: v['nbad'] > 0)
+    # ... and at every sub-schema keyword (all twelve rotations)
+    fb.append(Batch(G_N2_ALL_ANY, ['sibling'], ['000'], list(range(12)), reps=1, entry=ELEMENT_ENTRIES_CWD))
+    # a caller cache that already holds the other documents: they are used, not fetched again
+    fb.append(Batch(G_N3_ALL_WF, ['sibling', 'subdir'], ['000'], [sd['rot']], reps=1, entry=ELEMENT_ENTRIES_CWD, caches='preload:1,preload:0+1'))
+    rep3 = run_batches(ctx, fb, ['c08err', 'c08noerr', 'c04', 'c10root', 'c18never', 'c02'], [], nontrivial=lambda o, v: v['nbad'] > 0)
     rep.evaluations += rep3.evaluations
     rep.violations += rep3.violations
     rep.nontrivial |= rep3.nontrivial
